@@ -852,6 +852,27 @@ def order_rule(r, f, owner, field, why):
 
 def run(ctx):
     facts = ctx.facts
+    with ctx.rule("C05.CWDROOT", "rules of --ignore-file and of the global git ignore file are anchored at the current directory, so they "
+                  "apply alike to roots spelled `.`, relative or absolute", floor=2, kind="FLOW") as r:
+        # Gitignore::strip makes a candidate relative to the matcher's root before anchored patterns are tried. These two
+        # sources have no directory of their own; with an empty root an absolute candidate keeps its full path and every
+        # rule with a slash in it silently stops matching — the same tree then yields different files for `rg pat .`
+        # and `rg pat "$PWD"`.
+        for label, fname in (("ignore-file", "ignore::walk::WalkBuilder::add_ignore"), ("git-global", "ignore::dir::IgnoreBuilder::build")):
+            f = facts.fn(fname)
+            eb = ExprBuilder(f)
+            news = f.calls_to("ignore::gitignore::GitignoreBuilder::new")
+            if not news:
+                r.bad("cwd|" + label, "anchor-missing: %s builds no gitignore matcher" % fname.split("::")[-1], fn=f)
+                continue
+            roots = [eb.operand(c.args[0]) for c in news]
+            if all(mentions_call(e, "std::env::current_dir") for e in roots):
+                r.ok("cwd|" + label, "GitignoreBuilder::new(current_dir()…)", fn=f)
+            else:
+                r.bad("cwd|" + label, "%s builds its matcher with the root `%s`, not the current directory: for a search root given as an "
+                      "absolute path no rule containing a slash applies any more, although the same rule applies to the same "
+                      "files under `.`" % (fname.split("::")[-1], show([e for e in roots if not mentions_call(e, "std::env::current_dir")][0])[:40]),
+                      fn=f, loc=news[0].loc, construct="cwd-root")
     with ctx.rule("C05.BASE", "parent matchers and candidate paths are re-based on the search root they belong to", floor=3,
                   kind="PASS") as r:
         # Parent-directory ignore files are matched against absolute_base.join(path). add_parents caches the parent
